@@ -30,6 +30,7 @@ REPO = os.environ.get("VERIF_REPO", "/repo")
 NPROC = int(os.environ.get("VERIF_NPROC", "16"))
 CASES_PER_FILE = 250
 COQC_TIMEOUT = 600
+CASE_TIMEOUT = int(os.environ.get("VERIF_CASE_TIMEOUT", "60"))
 
 F_DISAGREE, F_PROPFAIL, F_SKIP = 1, 2, 4
 
@@ -180,11 +181,11 @@ def _worker_init(engine_mod):
 
 def _worker_run(arg):
     prop, case = arg
-    signal.alarm(20)
+    signal.alarm(CASE_TIMEOUT)
     try:
         return _ENGINE.run_impl(prop, case)
     except _Timeout:
-        return {"_harness_error": "timeout (20 s) while running the implementation"}
+        return {"_harness_error": f"timeout ({CASE_TIMEOUT} s) while running the implementation"}
     except BaseException as e:  # noqa
         return {"_harness_error": "".join(traceback.format_exception_only(type(e), e)).strip()[:400]}
     finally:
